@@ -71,9 +71,13 @@ DB = ["test/b", [["varint", "k"], ["string", "s"], ["float", "f"], ["bytes", "da
 DC = ["t/c", [["varint", "k"], ["string", "s"], ["datetime", "ts"], ["varint", "n"]]]
 # a second definition of test/a (another plugin version: same record type name, other fields and order)
 DA2 = ["test/a", [["string", "s"], ["varint", "k"], ["uint16", "port"], ["varint", "n"], ["float", "f"]]]
-DESCS = [DA, DB, DC, DA2]
+# two definitions of t/x whose descriptor identifiers (name + 32-bit hash) coincide: the hash input is the unseparated
+# concatenation of field names and types (k varint q stringlist w string = k varint q string listw string)
+DX1 = ["t/x", [["varint", "k"], ["stringlist", "q"], ["string", "w"]]]
+DX2 = ["t/x", [["varint", "k"], ["string", "q"], ["string", "listw"]]]
+DESCS = [DA, DB, DC, DA2, DX1, DX2]
 S_POOL = ["abc", "a", "ABC", "b", "x y", "q=1", "é", "a,b", "", "it's", "日本"]
-FIELD_POOL = ["k", "n", "s", "b", "t1", "t2", "l", "f", "data", "port", "ts", "zz", "_source"]
+FIELD_POOL = ["k", "n", "s", "b", "t1", "t2", "l", "f", "data", "port", "ts", "zz", "_source", "q", "listw"]
 MISSING = object()
 
 
@@ -197,6 +201,10 @@ def _gen_record(r, ds):
             v = V.NONE if none else V.B(r.bytes(r.randint(0, 6)))
         elif t == "uint16":
             v = V.NONE if none else V.I(r.choice([0, 80, 443, 65535]))
+        elif t == "string":
+            v = V.NONE if none else V.S(r.choice(S_POOL))
+        elif t == "stringlist":
+            v = ["list", [V.S(r.choice(["a", "b", "c", "x y"])) for _ in range(r.randint(0, 3))]]
         else:
             raise ValueError(t)
         vals.append(v)
